@@ -49,8 +49,21 @@ const HOST_CHARS: &[u8] = b"abcdefghijklmnopqrstuvwxyzABCXYZ0123456789-.";
 
 fn gen_segment(t: &mut Tape, max: usize) -> String {
     loop {
-        // now and then a very long segment (URIs of several kilobytes)
-        let max = if t.chance(1, 200) { 3000 } else { max };
+        // now and then a very long segment (URIs of several kilobytes, up to
+        // beyond 64 KiB; lengths around the sizes buffers usually have), half of
+        // them without any character that needs escaping, so that the value
+        // reaches the sink as one long run
+        if t.chance(1, 200) {
+            let n = *t.pick(&[1500usize, 3000, 4095, 4096, 4097, 5000, 8191, 8192, 9000, 20000, 65536, 70000]) + t.choose(3) as usize;
+            let plain = t.chance(1, 2);
+            let stem_len = 1 + t.choose(8) as usize;
+            let stem: String = (0..stem_len)
+                .map(|_| if plain { *t.pick(b"abcXYZ019-_~") as char } else { *t.pick(URI_CHARS) as char })
+                .collect();
+            let mut s = stem.repeat(n / stem.len() + 1);
+            s.truncate(n);
+            return s;
+        }
         let n = 1 + t.choose(max as u64) as usize;
         let s: String = (0..n).map(|_| *t.pick(URI_CHARS) as char).collect();
         if s != "." && s != ".." {
